@@ -136,7 +136,11 @@ def bounded(check, tier):
         s.evaluations += n
         for st, d in fails:
             s.fail("C17.fmtstr", dict(s=st, has_newline=("\n" in st)), d, replay={"kind": "suite", "module": "props.C17", "case": dict(s=st)})
-    for st in SAMPLES:
+    # text with code points that text handling tends to normalise or choke on (lone surrogates, a surrogate pair as two code points, the
+    # byte order mark, noncharacters, NUL): alone, and next to supported / unsupported / truncated sequences
+    from bounded.common import ODD_TEXTS
+    odd = [t for t in ODD_TEXTS] + [pre + t + post for t in ODD_TEXTS for pre, post in (("\x1b[31m", "\x1b[39m"), ("\x1b[20m", ""), ("", "\x1b["), ("\x1b[2K", "\x9b"))]
+    for st in list(SAMPLES) + odd:
         s.evaluations += 1
         d = judge(st)
         if d:
